@@ -13,7 +13,8 @@
 (*  P1 Terminates/Bounded  Every call of one of the three methods returns,    *)
 (*     and never causes more than maxMultiRoundTripRetries (10) handler       *)
 (*     invocations through a new client with the middleware (at most 3 of     *)
-(*     them load-shedding results), exactly one with the middleware Disabled, *)
+(*     them load-shedding results), exactly one per request the application   *)
+(*     issues with the middleware Disabled,                                   *)
 (*     and at most two per request the server receives from a legacy client   *)
 (*     ("re-invokes your handler exactly once").                              *)
 (*  P2 EchoExact  Every handler invocation after the first one of a call      *)
@@ -61,6 +62,12 @@
 (*     round and never an input_required resultType.                          *)
 (*  P11 PassThrough  Other methods go through both middlewares untouched: one *)
 (*     request on the wire per application call, no handler re-invocation.    *)
+(*  P12 ReachesHandler  Every request the application issues for one of the   *)
+(*     three methods - a first call, or with the middleware Disabled the call *)
+(*     re-issued "with InputResponses set and RequestState echoed back" - is  *)
+(*     answered by at least one invocation of the handler, which receives     *)
+(*     exactly what the application sent (P2 holds for the application's own  *)
+(*     retries as well).                                                      *)
 (*                                                                            *)
 (* DEVIATIONS of the code from the idealised design, modelled as the code is: *)
 (*  D1 the server-side bridge re-invokes the handler once only (documented).  *)
@@ -95,6 +102,7 @@ CONSTANTS Keys,        \* ids a handler gives its input requests, e.g. {"a","b"}
           MaxRetries,  \* maxMultiRoundTripRetries (10 in mcp/mrtr.go)
           MaxShed,     \* maxLoadSheddingMultiRoundTripRetries (3)
           MaxCalls,    \* application calls per behaviour
+          MaxManual,   \* retries the application itself performs per call when the middleware is Disabled
           Modes,       \* subset of {"new","newoff","old","oldoff"}
           Others       \* {FALSE} or {FALSE,TRUE}: may a call be of another method
 
@@ -126,10 +134,12 @@ VARIABLES mode,    \* "new": >= 2026-07-28 with middleware; "newoff": Disabled; 
           frun,    \* requests whose client handler is running
           fdone,   \* Keys -> "-" | "ok" | "fail"
           orphan,  \* legacy: client handlers still running although the server gave up (D4)
+          late,    \* legacy: requests sent and given up before the client's handler began (D4)
+          manual,  \* retries the application has performed itself in this call (middleware Disabled)
           outcome  \* what the application call returned
 
 vars == <<mode, hasE, hasS, callno, other, pc, params, tries, shed, sreq, sround, res, inv, first, wres,
-          who, fpend, frun, fdone, orphan, outcome>>
+          who, fpend, frun, fdone, orphan, late, manual, outcome>>
 
 IsNew == mode \in {"new", "newoff"}
 MwOn  == mode \in {"new", "old"}
@@ -153,10 +163,10 @@ Init ==
   /\ callno = 0 /\ other = FALSE /\ pc = "idle"
   /\ params = Fresh /\ tries = 0 /\ shed = 0
   /\ sreq = Fresh /\ sround = 0 /\ res = NoRes /\ inv = 0 /\ first = TRUE /\ wres = NoWire
-  /\ who = "none" /\ fpend = {} /\ frun = {} /\ fdone = NoneDone /\ orphan = {}
-  /\ outcome = NoOutcome
+  /\ who = "none" /\ fpend = {} /\ frun = {} /\ fdone = NoneDone /\ orphan = {} /\ late = {}
+  /\ manual = 0 /\ outcome = NoOutcome
 
-FulfilUnchanged == UNCHANGED <<who, fpend, frun, fdone, orphan>>
+FulfilUnchanged == UNCHANGED <<who, fpend, frun, fdone, orphan, late>>
 ConfigUnchanged == UNCHANGED <<mode, hasE, hasS>>
 
 \* ---- application ---------------------------------------------------------
@@ -164,19 +174,29 @@ ConfigUnchanged == UNCHANGED <<mode, hasE, hasS>>
 \* that carry no inputResponses / requestState (P3: this is the ideal; the code re-uses a params object
 \* as the middleware left it)
 AppCall(o) ==
-  /\ pc \in {"idle", "done"} /\ callno < MaxCalls /\ orphan = {}
+  /\ pc \in {"idle", "done"} /\ callno < MaxCalls /\ orphan = {} /\ late = {}
   /\ callno' = callno + 1 /\ other' = o
   /\ params' = Fresh /\ tries' = 1 /\ shed' = 0 /\ inv' = 0 /\ first' = TRUE
-  /\ res' = NoRes /\ wres' = NoWire /\ outcome' = NoOutcome
+  /\ res' = NoRes /\ wres' = NoWire /\ outcome' = NoOutcome /\ manual' = 0
   /\ pc' = "c_send"
   /\ UNCHANGED <<sreq, sround>> /\ FulfilUnchanged /\ ConfigUnchanged
+
+\* MultiRoundTripOptions.Disabled: "callers must handle the retry loop themselves" - the application fulfils the
+\* input requests of the result it got and re-issues the call with InputResponses set and RequestState echoed
+AppRetry ==
+  /\ pc = "done" /\ mode = "newoff" /\ ~other /\ outcome.t = "needsinput" /\ manual < MaxManual
+  /\ manual' = manual + 1
+  /\ params' = Echo(res, inv) /\ tries' = 1
+  /\ outcome' = NoOutcome /\ wres' = NoWire
+  /\ pc' = "c_send"
+  /\ UNCHANGED <<callno, other, shed, sreq, sround, res, inv, first>> /\ FulfilUnchanged /\ ConfigUnchanged
 
 \* next(ctx, method, req): the request goes onto the wire with the params as they are now
 CSend ==
   /\ pc = "c_send"
   /\ sreq' = params /\ sround' = 0
   /\ pc' = "s_recv"
-  /\ UNCHANGED <<callno, other, params, tries, shed, res, inv, first, wres, outcome>> /\ FulfilUnchanged /\ ConfigUnchanged
+  /\ UNCHANGED <<callno, other, params, tries, shed, res, inv, first, wres, manual, outcome>> /\ FulfilUnchanged /\ ConfigUnchanged
 
 Reply(w) == wres' = w /\ pc' = "c_got"
 ReplyErr(c) == Reply([k |-> "err", code |-> c, res |-> NoRes])
@@ -186,7 +206,7 @@ ReplyErr(c) == Reply([k |-> "err", code |-> c, res |-> NoRes])
 SOther ==
   /\ pc = "s_recv" /\ other
   /\ Reply([k |-> "res", code |-> "", res |-> [NoRes EXCEPT !.t = "complete"]])
-  /\ UNCHANGED <<callno, other, params, tries, shed, sreq, sround, res, inv, first, outcome>> /\ FulfilUnchanged /\ ConfigUnchanged
+  /\ UNCHANGED <<callno, other, params, tries, shed, sreq, sround, res, inv, first, manual, outcome>> /\ FulfilUnchanged /\ ConfigUnchanged
 
 \* the tool / prompt / resource handler runs and returns what it likes:
 \*   t = "complete"  content, no inputRequests
@@ -201,7 +221,7 @@ SInvoke(t, R, s) ==
   /\ inv' = inv + 1 /\ sround' = sround + 1 /\ first' = FALSE
   /\ res' = [t |-> t, reqs |-> R, st |-> IF s THEN inv + 1 ELSE 0, rt |-> ""]
   /\ pc' = "s_post"
-  /\ UNCHANGED <<callno, other, params, tries, shed, sreq, wres, outcome>> /\ FulfilUnchanged /\ ConfigUnchanged
+  /\ UNCHANGED <<callno, other, params, tries, shed, sreq, wres, manual, outcome>> /\ FulfilUnchanged /\ ConfigUnchanged
 
 \* callTool / getPrompt / readResource after the handler: handleMultiRoundTripResult
 SPost ==
@@ -211,7 +231,7 @@ SPost ==
        [] OTHER -> /\ res' = [res EXCEPT !.rt = IF ~IsNew THEN ""                   \* P9
                                                  ELSE IF res.t = "input" THEN "input_required" ELSE "complete"]
                    /\ pc' = "s_mw" /\ UNCHANGED wres
-  /\ UNCHANGED <<callno, other, params, tries, shed, sreq, sround, inv, first, outcome>> /\ FulfilUnchanged /\ ConfigUnchanged
+  /\ UNCHANGED <<callno, other, params, tries, shed, sreq, sround, inv, first, manual, outcome>> /\ FulfilUnchanged /\ ConfigUnchanged
 
 \* serverMultiRoundTripMiddleware, after next() returned without error
 SMw ==
@@ -221,8 +241,8 @@ SMw ==
      ELSE IF res.reqs = Empty
      THEN ReplyErr("busy") /\ FulfilUnchanged                                       \* D3
      ELSE /\ who' = "server" /\ fpend' = Dom(res.reqs) /\ frun' = {} /\ fdone' = NoneDone
-          /\ pc' = "fulfil" /\ UNCHANGED <<wres, orphan>>
-  /\ UNCHANGED <<callno, other, params, tries, shed, sreq, sround, res, inv, first, outcome>> /\ ConfigUnchanged
+          /\ pc' = "fulfil" /\ UNCHANGED <<wres, orphan, late>>
+  /\ UNCHANGED <<callno, other, params, tries, shed, sreq, sround, res, inv, first, manual, outcome>> /\ ConfigUnchanged
 
 \* ---- fulfilling the input requests of `res` (errgroup: all started at once) ---
 \* new client: fulfillInputRequest calls the client's handler directly;
@@ -233,29 +253,44 @@ FBegin(k) ==
   /\ IF Has(res.reqs[k])
      THEN frun' = frun \cup {k} /\ UNCHANGED fdone     \* the handler is invoked (roots: the SDK's own root list)
      ELSE fdone' = [fdone EXCEPT ![k] = "fail"] /\ UNCHANGED frun   \* no handler / capability: an error, nothing is invoked
-  /\ UNCHANGED <<callno, other, pc, params, tries, shed, sreq, sround, res, inv, first, wres, who, orphan, outcome>> /\ ConfigUnchanged
+  /\ UNCHANGED <<callno, other, pc, params, tries, shed, sreq, sround, res, inv, first, wres, who, orphan, late, manual, outcome>> /\ ConfigUnchanged
 
 FEnd(k, r) ==
   /\ pc = "fulfil" /\ k \in frun
   /\ r \in (IF res.reqs[k] = "roots" THEN {"ok"} ELSE {"ok", "fail"})
   /\ frun' = frun \ {k} /\ fdone' = [fdone EXCEPT ![k] = r]
-  /\ UNCHANGED <<callno, other, pc, params, tries, shed, sreq, sround, res, inv, first, wres, who, fpend, orphan, outcome>> /\ ConfigUnchanged
+  /\ UNCHANGED <<callno, other, pc, params, tries, shed, sreq, sround, res, inv, first, wres, who, fpend, orphan, late, manual, outcome>> /\ ConfigUnchanged
 
 \* D4 (legacy only): after a failure the errgroup context is cancelled - a request not sent yet is not sent,
 \* one in flight is abandoned (the server's call returns, the client's handler keeps running)
 FSkip(k) ==
   /\ pc = "fulfil" /\ who = "server" /\ k \in fpend /\ Failed
   /\ fpend' = fpend \ {k} /\ fdone' = [fdone EXCEPT ![k] = "fail"]
-  /\ UNCHANGED <<callno, other, pc, params, tries, shed, sreq, sround, res, inv, first, wres, who, frun, orphan, outcome>> /\ ConfigUnchanged
+  /\ UNCHANGED <<callno, other, pc, params, tries, shed, sreq, sround, res, inv, first, wres, who, frun, orphan, late, manual, outcome>> /\ ConfigUnchanged
 
 FAbandon(k) ==
   /\ pc = "fulfil" /\ who = "server" /\ k \in frun /\ Failed
   /\ frun' = frun \ {k} /\ orphan' = orphan \cup {k} /\ fdone' = [fdone EXCEPT ![k] = "fail"]
-  /\ UNCHANGED <<callno, other, pc, params, tries, shed, sreq, sround, res, inv, first, wres, who, fpend, outcome>> /\ ConfigUnchanged
+  /\ UNCHANGED <<callno, other, pc, params, tries, shed, sreq, sround, res, inv, first, wres, who, fpend, late, manual, outcome>> /\ ConfigUnchanged
+
+\* ... or one that was sent is given up before the client's handler has begun: the handler may still begin
+\* (and end) later, or the cancellation overtakes it
+FLate(k) ==
+  /\ pc = "fulfil" /\ who = "server" /\ k \in fpend /\ Failed /\ Has(res.reqs[k])
+  /\ fpend' = fpend \ {k} /\ late' = late \cup {k} /\ fdone' = [fdone EXCEPT ![k] = "fail"]
+  /\ UNCHANGED <<callno, other, pc, params, tries, shed, sreq, sround, res, inv, first, wres, who, frun, orphan, manual, outcome>> /\ ConfigUnchanged
+
+LBegin(k) ==
+  /\ k \in late /\ late' = late \ {k} /\ orphan' = orphan \cup {k}
+  /\ UNCHANGED <<callno, other, pc, params, tries, shed, sreq, sround, res, inv, first, wres, who, fpend, frun, fdone, manual, outcome>> /\ ConfigUnchanged
+
+LDrop(k) ==
+  /\ k \in late /\ late' = late \ {k}
+  /\ UNCHANGED <<callno, other, pc, params, tries, shed, sreq, sround, res, inv, first, wres, who, fpend, frun, fdone, orphan, manual, outcome>> /\ ConfigUnchanged
 
 OEnd(k) ==
   /\ k \in orphan /\ orphan' = orphan \ {k}
-  /\ UNCHANGED <<callno, other, pc, params, tries, shed, sreq, sround, res, inv, first, wres, who, fpend, frun, fdone, outcome>> /\ ConfigUnchanged
+  /\ UNCHANGED <<callno, other, pc, params, tries, shed, sreq, sround, res, inv, first, wres, who, fpend, frun, fdone, late, manual, outcome>> /\ ConfigUnchanged
 
 Return(o) == outcome' = o /\ pc' = "done"
 RetErr(c) == Return([NoOutcome EXCEPT !.t = "error", !.code = c])
@@ -268,12 +303,12 @@ FJoin ==
      THEN IF Failed
           THEN RetErr("cfail") /\ UNCHANGED <<params, tries, sreq, wres>>
           ELSE /\ params' = Echo(res, inv) /\ tries' = tries + 1                   \* setMultiRoundTripRetryParams
-               /\ pc' = "c_send" /\ UNCHANGED <<sreq, wres, outcome>>
+               /\ pc' = "c_send" /\ UNCHANGED <<sreq, wres, manual, outcome>>
      ELSE IF Failed
-          THEN ReplyErr("cfail") /\ UNCHANGED <<params, tries, sreq, outcome>>
+          THEN ReplyErr("cfail") /\ UNCHANGED <<params, tries, sreq, manual, outcome>>
           ELSE /\ sreq' = Echo(res, inv)                                           \* re-invoke the handler once
-               /\ pc' = "s_recv" /\ UNCHANGED <<params, tries, wres, outcome>>
-  /\ UNCHANGED <<callno, other, shed, sround, res, inv, first, fpend, frun, fdone, orphan>> /\ ConfigUnchanged
+               /\ pc' = "s_recv" /\ UNCHANGED <<params, tries, wres, manual, outcome>>
+  /\ UNCHANGED <<callno, other, shed, sround, res, inv, first, fpend, frun, fdone, orphan, late, manual>> /\ ConfigUnchanged
 
 \* ---- client, reply received ------------------------------------------------
 Visible(w) ==
@@ -286,14 +321,14 @@ Visible(w) ==
 CPass ==
   /\ pc = "c_got" /\ (other \/ ~MwOn)
   /\ Return(Visible(wres))
-  /\ UNCHANGED <<callno, other, params, tries, shed, sreq, sround, res, inv, first, wres>> /\ FulfilUnchanged /\ ConfigUnchanged
+  /\ UNCHANGED <<callno, other, params, tries, shed, sreq, sround, res, inv, first, wres, manual>> /\ FulfilUnchanged /\ ConfigUnchanged
 
 \* clientMultiRoundTripMiddleware: error, or a result without inputRequests
 CFinal ==
   /\ pc = "c_got" /\ ~other /\ MwOn
   /\ wres.k = "err" \/ wres.res.t # "input"
   /\ Return(Visible(wres))
-  /\ UNCHANGED <<callno, other, params, tries, shed, sreq, sround, res, inv, first, wres>> /\ FulfilUnchanged /\ ConfigUnchanged
+  /\ UNCHANGED <<callno, other, params, tries, shed, sreq, sround, res, inv, first, wres, manual>> /\ FulfilUnchanged /\ ConfigUnchanged
 
 \* ... a result with inputRequests: limits (D2), then fulfil
 CInput ==
@@ -304,11 +339,12 @@ CInput ==
      /\ IF shed1 >= MaxShed THEN RetErr("shedlimit") /\ FulfilUnchanged
         ELSE IF tries >= MaxRetries THEN RetErr("limit") /\ FulfilUnchanged
         ELSE /\ who' = "client" /\ fpend' = Dom(wres.res.reqs) /\ frun' = {} /\ fdone' = NoneDone
-             /\ pc' = "fulfil" /\ UNCHANGED <<outcome, orphan>>
-  /\ UNCHANGED <<callno, other, params, tries, sreq, sround, res, inv, first, wres>> /\ ConfigUnchanged
+             /\ pc' = "fulfil" /\ UNCHANGED <<manual, outcome, orphan, late>>
+  /\ UNCHANGED <<callno, other, params, tries, sreq, sround, res, inv, first, wres, manual>> /\ ConfigUnchanged
 
 Next ==
   \/ \E o \in Others : AppCall(o)
+  \/ AppRetry
   \/ CSend
   \/ SOther
   \/ \E t \in {"complete", "input", "invalid", "err"}, R \in HandlerMaps, s \in BOOLEAN : SInvoke(t, R, s)
@@ -318,6 +354,9 @@ Next ==
   \/ \E k \in Keys, r \in {"ok", "fail"} : FEnd(k, r)
   \/ \E k \in Keys : FSkip(k)
   \/ \E k \in Keys : FAbandon(k)
+  \/ \E k \in Keys : FLate(k)
+  \/ \E k \in Keys : LBegin(k)
+  \/ \E k \in Keys : LDrop(k)
   \/ \E k \in Keys : OEnd(k)
   \/ FJoin
   \/ CPass
@@ -333,12 +372,12 @@ TypeOK ==
   /\ callno \in 0..MaxCalls /\ other \in BOOLEAN
   /\ pc \in {"idle", "c_send", "s_recv", "s_post", "s_mw", "fulfil", "c_got", "done"}
   /\ tries \in 0..MaxRetries /\ shed \in 0..MaxShed /\ sround \in 0..2 /\ inv \in 0..(2 * MaxRetries)
-  /\ res.reqs \in AllMaps /\ fpend \subseteq Keys /\ frun \subseteq Keys /\ orphan \subseteq Keys
+  /\ res.reqs \in AllMaps /\ fpend \subseteq Keys /\ frun \subseteq Keys /\ orphan \subseteq Keys /\ late \subseteq Keys
   /\ fdone \in [Keys -> {"-", "ok", "fail"}]
-  /\ who \in {"none", "client", "server"}
+  /\ who \in {"none", "client", "server"} /\ manual \in 0..MaxManual
 
 \* P1
-InvBound == CASE mode = "new" -> MaxRetries [] mode = "old" -> 2 * MaxRetries [] mode = "newoff" -> 1 [] OTHER -> 2
+InvBound == CASE mode = "new" -> MaxRetries [] mode = "old" -> 2 * MaxRetries [] mode = "newoff" -> 1 + manual [] OTHER -> 2
 Bounded == inv <= InvBound /\ sround <= (IF IsNew THEN 1 ELSE 2) /\ shed <= MaxShed /\ tries <= MaxRetries
 Terminates == (pc = "c_send") ~> (pc = "done")
 
@@ -391,7 +430,7 @@ WireOK ==
 \* P10: only a legacy client is asked by the server
 Channel == who = "server" => ~IsNew
 \* D4: on a new client nothing outlives the call
-NoOrphanOnNew == IsNew => orphan = {}
+NoOrphanOnNew == IsNew => (orphan = {} /\ late = {})
 
 \* P11
 PassThrough == (other /\ pc = "done") => (inv = 0 /\ tries = 1 /\ outcome.t = "complete")
